@@ -38,7 +38,7 @@ FILES = ["loky/process_executor.py", "loky/reusable_executor.py"]
 CLASSES = ["_ExecutorFlags", "_ThreadWakeup", "_SafeQueue", "_ExecutorManagerThread", "ProcessPoolExecutor", "_ReusablePoolExecutor"]
 # edges that are known to close a cycle on the pinned source (finding H15): the rank certificate is computed without them
 EXCLUDED = [("UserCb", "LSubmitResize"), ("UserCb", "LFactory")]
-ALL = ["LFactory", "LSubmitResize", "LGlobal", "LShutdown", "LMgmt", "LSlot", "LExit", "LCqWrite", "LNotEmpty", "TMgr", "PWorker", "UserCb"]
+ALL = ["LFactory", "LSubmitResize", "LGlobal", "LShutdown", "LMgmt", "LSlot", "LExit", "LCqWrite", "LNotEmpty", "TMgr", "PWorker", "UserCb", "WPipe"]
 
 
 def gen_locks(repo, read):
@@ -53,6 +53,10 @@ def gen_locks(repo, read):
             if isinstance(c, ast.Call) and un(c.func) == "cls"]
     same = (params[:2] == ["self", "submit_resize_lock"] and stores and len(ctor) == 1 and ctor[0].args
             and un(ctor[0].args[0]) == "_executor_lock")
+    # can _ThreadWakeup.wakeup() block?  it cannot when it writes only if no message is pending (then the pipe never holds two)
+    psrc0, ptree0 = read(repo, "loky/process_executor.py")
+    wk = [un(x) for x in strip_docstring(find_function(ptree0, "_ThreadWakeup.wakeup").body)]
+    wakeup_can_block = wk != ["if not self._closed and (not self._reader.poll()):\n    self._writer.send_bytes(b'')"]
     locks = dict(LOCKS)
     if same:
         locks["self._submit_resize_lock"] = "LFactory"
@@ -157,6 +161,9 @@ def gen_locks(repo, read):
                     elif t.startswith(("time.sleep(", "sleep(")) and q.startswith("_ReusablePoolExecutor.") and in_while[0]:
                         # a polling loop of the resizing thread: it waits for the manager thread to make progress
                         direct[q].append((tuple(held), "TMgr", c.lineno))
+                    elif isinstance(f, ast.Attribute) and f.attr == "wakeup" and not c.args and wakeup_can_block:
+                        # a write into the manager's self-pipe that blocks when the pipe is full: room is made only by the manager's clear()
+                        direct[q].append((tuple(held), "WPipe", c.lineno))
                     elif isinstance(f, ast.Attribute) and f.attr == "put" and un(f.value) in ("self.call_queue", "self._call_queue"):
                         direct[q].append((tuple(held), "LSlot", c.lineno))
                     else:
@@ -211,6 +218,10 @@ def gen_locks(repo, read):
     # pseudo-locks
     for l in sorted(enters.get("_ExecutorManagerThread.run", ())):
         add_edge("TMgr", l, "_ExecutorManagerThread.run")
+    # room in the wake-up pipe is made by the manager thread only: everything it may wait for on its way to the next clear()
+    for l in sorted(enters.get("_ExecutorManagerThread.run", ())):
+        if l != "WPipe" and any(b == "WPipe" for (a, b) in edges):
+            add_edge("WPipe", l, "_ExecutorManagerThread.run (on its way to clear())")
     for l in sorted(enters.get("_process_worker", ())):
         if l in ("LMgmt", "LExit", "LSlot", "LCqWrite"):      # the other locks are per-process objects: the worker has its own copies
             add_edge("PWorker", l, "_process_worker")
